@@ -1,7 +1,11 @@
 package mon
 
 import (
+	"fmt"
+	"runtime"
 	"strings"
+	"sync"
+	"sync/atomic"
 
 	"github.com/paulmach/orb"
 	"github.com/paulmach/orb/encoding/wkt"
@@ -74,7 +78,7 @@ func init() {
 	// zero-vertex rings/lines inside non-empty polygons / multi line strings are outside the
 	// domain (no WKT form); empty values and empty collection members are inside it.
 	base := func(f func(*h.Rand) float64) *gen.GeomOpts {
-		return &gen.GeomOpts{Float: f, Empty: true, EmptyParts: false, RingBound: true, Huge: true}
+		return &gen.GeomOpts{Float: f, Empty: true, EmptyParts: false, RingBound: true, Huge: true, SharedMembers: true}
 	}
 	expo := func(r *h.Rand) float64 { // weighted towards values printed in exponent form
 		switch r.Intn(4) {
@@ -193,6 +197,71 @@ func init() {
 						c.Nontrivial(refmodel.Hash(g))
 						c.Sample(map[string]interface{}{"kind": refmodel.KindName(g), "text": text, "respelled": respell(r, text)})
 					}
+				},
+			},
+			{
+				// the parse functions are functions of their argument: texts of different kinds parsed by several goroutines at the
+				// same time give what they give one after the other (the library keeps no state between calls that could say otherwise)
+				Name: "parses-at-the-same-time", Count: h.Fixed(40, 4000), BudgetSec: 60,
+				Run: func(c *h.Ctx, idx uint64, r *h.Rand) {
+					type job struct {
+						text string
+						tf   int // index into c04typed, -1: wkt.Unmarshal
+						want orb.Geometry
+						err  error
+					}
+					var jobs []job
+					for len(jobs) < 24 {
+						g := optsOrd.Geometry(r, r.Intn(3))
+						if rg, ok := g.(orb.Ring); ok && len(rg) == 0 || hasEmptyRingMember(g) {
+							continue
+						}
+						text := respell(r, wkt.MarshalString(g))
+						j := job{text: text, tf: r.Intn(len(c04typed)+1) - 1}
+						if j.tf < 0 {
+							j.want, j.err = wkt.Unmarshal(text)
+						} else {
+							j.want, j.err = c04typed[j.tf].f(text)
+						}
+						jobs = append(jobs, j)
+					}
+					prev := runtime.GOMAXPROCS(8)
+					defer runtime.GOMAXPROCS(prev)
+					var wg sync.WaitGroup
+					var bad int64
+					var first atomic.Value
+					start := make(chan struct{})
+					for gi := 0; gi < 8; gi++ {
+						wg.Add(1)
+						go func(gi int) {
+							defer wg.Done()
+							<-start
+							for rep := 0; rep < 150; rep++ {
+								j := &jobs[(gi*7+rep)%len(jobs)]
+								var got orb.Geometry
+								var err error
+								if j.tf < 0 {
+									got, err = wkt.Unmarshal(j.text)
+								} else {
+									got, err = c04typed[j.tf].f(j.text)
+								}
+								if err != j.err || (err == nil && !refmodel.EqualBits(got, j.want)) {
+									if atomic.AddInt64(&bad, 1) == 1 {
+										first.Store(fmt.Sprintf("text %q (parser %d): alone %v / %v, at the same time as other parses %v / %v", j.text, j.tf, sv(j.want), j.err, sv(got), err))
+									}
+								}
+							}
+						}(gi)
+					}
+					close(start)
+					wg.Wait()
+					c.Evals(8 * 150)
+					if bad > 0 {
+						f, _ := first.Load().(string)
+						c.Fail("", "a parse gives a different result when other parses run at the same time", map[string]interface{}{"differences": bad, "first": f})
+					}
+					c.Count("parses_run_concurrently", 8*150)
+					c.Nontrivial(c.CaseHash())
 				},
 			},
 		},
